@@ -38,6 +38,13 @@ def cases(tier, seed):
                 for glob, task in ((True, True), (True, False), (False, True)):
                     for db in ([], [2]):
                         yield {"kind": "mt", "t": t, "n": n, "rank": rank, "global": glob, "task": task, "interleaved": inter, "dbatch": db, "lbatch": [], "seed": rnd.randrange(10**6)}
+        # coinciding sizes (points == tasks, batch == tasks == points) and batched multitask likelihoods
+        for (t, n, db, lb), inter in itertools.product([(2, 2, [], []), (3, 3, [], []), (2, 2, [2], []), (3, 3, [3], []), (2, 4, [2], [2]), (3, 3, [3], [3]), (2, 1, [], [2]), (3, 2, [2], [2])], [True, False]):
+            for rank in range(0, t + 1):
+                for glob, task in ((True, True), (True, False), (False, True)):
+                    if tier == "quick" and rnd.random() < 0.5:
+                        continue
+                    yield {"kind": "mt", "t": t, "n": n, "rank": rank, "global": glob, "task": task, "interleaved": inter, "dbatch": db, "lbatch": lb, "seed": rnd.randrange(10**6)}
         for n, with_noise in itertools.product([2, 4], [False, True]):
             yield {"kind": "list", "n": n, "call_noise": with_noise, "members": rnd.choice([["fixed", "fixed"], ["fixed+learn", "fixed"], ["fixed", "fixed+learn", "fixed"]]), "seed": rnd.randrange(10**6)}
         yield {"kind": "list", "n": 3, "call_noise": False, "members": ["gauss", "fixed", "gauss"], "seed": rnd.randrange(10**6)}
@@ -224,22 +231,30 @@ def _mt(case, ctx, g):
     from vf import util
 
     t, n, rank, db = case["t"], case["n"], case["rank"], case["dbatch"]
-    lik = gpytorch.likelihoods.MultitaskGaussianLikelihood(num_tasks=t, rank=rank, has_global_noise=case["global"], has_task_noise=case["task"])
+    lb = case.get("lbatch", [])
+    lik = gpytorch.likelihoods.MultitaskGaussianLikelihood(num_tasks=t, rank=rank, has_global_noise=case["global"], has_task_noise=case["task"], **({"batch_shape": torch.Size(lb)} if lb else {}))
     util.randomize(lik, g)
     mean, C = util.randn(g, *db, n, t), _spd(g, *db, n * t)
     d = MT(mean, C, interleaved=case["interleaved"])
-    D = torch.zeros(t, t)
+    D = torch.zeros(*lb, t, t)
     if case["task"]:
         D = D + (torch.diag_embed(lik.task_noises.detach()) if rank == 0 else lik.task_noise_covar.detach())
     if case["global"]:
-        D = D + lik.noise.detach() * torch.eye(t)
-    R = torch.kron(torch.eye(n), D) if case["interleaved"] else torch.kron(D, torch.eye(n))
-    cls = f"mt:rank{min(rank,1)}:{'g' if case['global'] else ''}{'t' if case['task'] else ''}:{'inter' if case['interleaved'] else 'noninter'}"
-    out = lik(d)
+        D = D + lik.noise.detach().unsqueeze(-1) * torch.eye(t)
+    In = torch.eye(n)
+    # Kronecker product per batch element, in the layout of the input distribution
+    R = torch.einsum("ij,...ab->...iajb", In, D).reshape(*lb, n * t, n * t) if case["interleaved"] else torch.einsum("...ab,ij->...aibj", D, In).reshape(*lb, n * t, n * t)
+    cls = f"mt:rank{min(rank,1)}:{'g' if case['global'] else ''}{'t' if case['task'] else ''}:{'inter' if case['interleaved'] else 'noninter'}" + (":likbatch" if lb else "") + (":n==t" if n == t else "")
+    try:
+        out = lik(d)
+    except Exception as e:
+        ctx.fail("marginal_adds_R", f"multitask likelihood (batch {lb}) on a distribution of batch {db} raised {type(e).__name__}: {str(e)[:140]}", "raise", exc=type(e).__name__, lbatch=bool(lb))
+        ctx.cell({k: v_ for k, v_ in case.items() if k != "seed"})
+        return
     add = out.covariance_matrix - C
     ctx.close("marginal_adds_R", add, R.expand(add.shape), "direct", cls=cls)
     # elementwise closed forms use the diagonal of R in the (n, t) frame, summed over tasks
-    rd = torch.diagonal(D).expand(*db, n, t)
+    rd = torch.diagonal(D, dim1=-2, dim2=-1).unsqueeze(-2).expand(*torch.broadcast_shapes(torch.Size(db), torch.Size(lb)), n, t)
     v = d.variance
     y = mean + util.randn(g, *db, n, t)
     elp = lik.expected_log_prob(y, d)
